@@ -122,6 +122,10 @@ impl History {
                 UB::new(250.0 + s.jx * 2000.0, 250.0 + s.jy * 2000.0, None, 0.8, 30.0 + s.js.abs() * 100.0)
             };
             let mut b = b;
+            // a detector that reports axis-aligned boxes only, now and then, for an oriented object
+            if s.feat_var % 16 == 7 && s.part.0 == 1.0 {
+                b.angle = None;
+            }
             b.conf = s.conf.clamp(0.0, 1.0);
             let proto = if s.obj < self.objs.len() { self.objs[s.obj].proto } else { 200 + (s.feat_var % 8) };
             out.push(Det {
@@ -321,10 +325,16 @@ pub fn history(kind: Kind, lifecycle: bool, max_ops: usize) -> impl Strategy<Val
 /// `dups = false`: no exact duplicate detections and a distinct appearance variation for every
 /// detection (tie-free by construction, for differential checks).
 pub fn history_opts(kind: Kind, lifecycle: bool, max_ops: usize, dups: bool) -> impl Strategy<Value = History> {
-    (cfg(kind), objs(), 2usize..=16, 1usize..=3, proptest::collection::vec(raw_op(lifecycle), 1..max_ops)).prop_map(move |(cfg, objs, feat_dim, nscenes, raw)| {
+    (cfg(kind), objs(), 2usize..=16, 1usize..=3, proptest::collection::vec(raw_op(lifecycle), 1..max_ops), proptest::bool::weighted(0.07)).prop_map(move |(cfg, objs, feat_dim, nscenes, raw, near_wrap)| {
         let mut uniq: u32 = 0;
         let mut clock = [0u16; 3];
         let mut ops = vec![];
+        if near_wrap {
+            // the history starts a few epochs below 2^32 on every scene and crosses it while tracks are alive
+            for s in 0..nscenes {
+                ops.push(Op::Skip { scene: SCENES[s], n: (1usize << 32) - 2 - 3 * s - raw.len() % 5 });
+            }
+        }
         for r in raw {
             ops.push(match r {
                 RawOp::Predict(s, dets, empty) => {
